@@ -70,8 +70,10 @@ func normDiff(op Op, r Res) string {
 		return "err:" + ec
 	}
 	switch op.Kind {
-	case "Get", "GetHash", "GetList", "GetAllHash":
-		return "ok:" + canon(normList(r.V))
+	case "Get":
+		return "ok:" + canon(r.V, false)
+	case "GetHash", "GetList", "GetAllHash":
+		return "ok:" + canon(normList(r.V), true)
 	case "Exists", "SetNX", "CompareAndSwap":
 		return fmt.Sprintf("ok:%v", r.B)
 	case "Incr", "IncrBy":
@@ -159,6 +161,9 @@ func runDiff(ops []Op) diffOut {
 					symptom = "mem=" + nm
 				}
 				out.key = classify(op, class, writer, symptom, gm, want, stored)
+			case nm == nw && (op.Kind == "GetHash" || op.Kind == "GetAllHash") && gr.Err == "" && gm.Err == "" &&
+				canon(normList(gm.V), false) == canon(normList(gr.V), false):
+				out.key = "C13/redis-hash/integer-field-read-back-as-float64"
 			case nm == nw:
 				out.key = fmt.Sprintf("C13/redis/%s/on=%s/memory-and-model=%s/redis=%s", opTag(op), coarse(class, gr, want), shortForm(nm), shortForm(nr))
 			default:
@@ -324,7 +329,7 @@ func TestDifferentialRedis(t *testing.T) {
 	if _, _, err := redisBackend(); err != nil {
 		t.Fatalf("inconclusive: miniredis-backed Redis storage unavailable: %v", err)
 	}
-	vkit.Check(t, 600, 8000, func(t *rapid.T) {
+	vkit.Check(t, 400, 8000, func(t *rapid.T) {
 		n := rapid.IntRange(4, 40).Draw(t, "nops")
 		shadow := map[string]kstate{}
 		shortKeys := map[string]bool{}
@@ -333,7 +338,7 @@ func TestDifferentialRedis(t *testing.T) {
 		for i := 0; i < n; i++ {
 			op := genDiffOp(t, shadow)
 			if op.Kind == "sleep" {
-				if sleeps >= 3 {
+				if sleeps >= vkit.Pick(2, 3) {
 					continue
 				}
 				sleeps++
